@@ -133,3 +133,10 @@ TEXT["C16"] = {
     "note": "trusts the harness policy model (harness/src/c16.rs: truth, canon) and the transaction model for lock height / distance",
     "technique": "reference-model monitor (policy truth table, canonical form) over generated policies, environments and availability patterns; differential against the C evaluator",
 }
+TEXT["C17"] = {
+    "level": ("Thousands of generated commit programs and generated source texts pushed through render + parse with CMR, node list, types and encoding compared; "
+              "tens of thousands of arbitrary, token-soup, mutated and deeply nested strings through the parser with panics, process deaths and hangs monitored."),
+    "design_ref": "DESIGN.md section 5, C17",
+    "note": "trusts the harness program generator and its CMR model (ast.rs)",
+    "technique": "round-trip monitor over generated programs and source texts; crash / panic / hang monitor over arbitrary and deeply nested strings",
+}
